@@ -84,6 +84,9 @@ def _parse_config_path(config_path: str) -> str:
   spec = importlib.util.find_spec(pkg)  # type: ignore
   if spec is None:
     raise ValueError('Package not found', pkg)
+  if spec.submodule_search_locations is None:
+    # A plain (or built-in) module has no directory of its own.
+    raise ValueError('Not a package', pkg)
   file_sys_path = spec.origin
   if file_sys_path is None:
     # Namespace package (a directory without __init__.py): it has no origin,
